@@ -165,3 +165,10 @@ func (w *World) EnteredFunctions() map[string][]string {
 	}
 	return res
 }
+
+func (w *World) taintedBy(g *ssa.Global) (string, bool) {
+	w.mu.Lock()
+	p, ok := w.tainted[g]
+	w.mu.Unlock()
+	return p, ok
+}
